@@ -36,7 +36,8 @@ def job(args):
                 df = pd.DataFrame({"x": pd.Series(ids, dtype="int64"), "s": pd.Series(["f%dr%d" % (i, j) for j in range(n)], dtype="str")})
                 if c["badschema"] == i + 1:
                     df = df.rename(columns={"s": "other"})
-                sub = {"flat": "", "hive": "k=%d" % f["key"], "drill": "v%d" % f["key"]}[shape]
+                sub = {"flat": "", "hive": "k=%d" % f["key"], "drill": "v%d" % f["key"],
+                       "hive2": "k=%d/m=%d" % (f["key"], 3 - f["key"]), "drill2": "v%d/w%d" % (f["key"], 3 - f["key"])}[shape]
                 os.makedirs(os.path.join(root, sub), exist_ok=True)
                 p = os.path.join(root, sub, "file%d.parquet" % i)
                 fp.write(p, df, write_index=False)
@@ -57,7 +58,7 @@ def job(args):
                 elif c["way"] == "dir":
                     pf = fp.ParquetFile("." if c["pathkind"] == "rel" else root, verify=bool(c["verify"]))
                 elif c["way"] == "glob":
-                    pat = ("**/*.parquet" if shape != "flat" else "*.parquet")
+                    pat = ("*.parquet" if shape == "flat" else "*/*/*.parquet" if shape in ("hive2", "drill2") else "**/*.parquet")
                     pf = fp.ParquetFile(pat if c["pathkind"] == "rel" else os.path.join(root, pat), verify=bool(c["verify"]))
                 else:
                     fp.writer.merge(use, verify_schema=bool(c["verify"]))
@@ -87,12 +88,13 @@ def job(args):
             if cnt != len(exp):
                 out["viol"].append((dict(sig, what="total row count differs from the sum of the files"), ci))
             # with the root inferred from the paths, a directory level shared by ALL files is part of the root
-            if shape == "hive" and len(exp) and len({f["key"] for f in c["files"]}) > 1:
-                if "k" not in df.columns:
+            if shape in ("hive", "hive2") and len(exp) and len({f["key"] for f in c["files"]}) > 1:
+                if "k" not in df.columns or (shape == "hive2" and "m" not in df.columns):
                     out["viol"].append((dict(sig, what="partition column not inferred from the directory names"), ci))
                 else:
                     km = {w[0]: w[1] for w in want}
-                    if any(int(kv) != km[int(xv)] for xv, kv in zip(df["x"], df["k"])):
+                    if any(int(kv) != km[int(xv)] for xv, kv in zip(df["x"], df["k"])) or (
+                            shape == "hive2" and any(int(mv) != 3 - km[int(xv)] for xv, mv in zip(df["x"], df["m"]))):
                         out["viol"].append((dict(sig, what="partition value does not match the file's directory"), ci))
             shutil.rmtree(root, ignore_errors=True)
     except BaseException:  # noqa
@@ -128,8 +130,8 @@ def _run(ev, work, thorough):
     base = os.path.join(work, "many")
     os.makedirs(base)
     jobs = []
-    for shape in ("flat", "hive", "drill"):
-        sub = cases if thorough else cases[::3]
+    for shape in ("flat", "hive", "drill", "hive2", "drill2"):
+        sub = cases if thorough else (cases[::3] if shape in ("flat", "hive", "drill") else cases[1::5])
         for i in range(16):
             c = sub[i::16]
             if c:
